@@ -693,6 +693,14 @@ class Exec:
                     q = [c for c in q if (re.search(r'From<\s*&', c[2] or '') is not None) == isref]
                 if len(q) == 1: cands = q
             if len(cands) == 1: return _mir_caller(cands[0][0])
+        mt = re.fullmatch(r'<(.+) as TryInto<(.+)>>::try_into', callee)
+        if mt:
+            cands = prog.method_info('TryFrom', simple_name(mt.group(2)), 'try_from')
+            if len(cands) > 1:
+                isref = mt.group(1).strip().startswith('&')
+                q = [c for c in cands if simple_name(mt.group(1)) in (c[2] or '') and (re.search(r'TryFrom<\s*&', c[2] or '') is not None) == isref]
+                if len(q) == 1: cands = q
+            if len(cands) == 1: return _mir_caller(cands[0][0])
         tm = _parse_callee(callee)
         if tm and tm[0] and simple_name(tm[0]) == 'Drop':
             return models.lookup(callee)
@@ -816,6 +824,9 @@ def _dynamic_dispatch(ex0, trait, method, callee, infos=None):
     def call(ex, args):
         recv = deref(args[0]) if args else None
         if isinstance(recv, BoxV) and isinstance(deref(recv.f[0]), Closure): recv = deref(recv.f[0])
+        if trait == 'ToString' and method == 'to_string':
+            from . import models as _m
+            return _m.generic_to_string(ex, args, None)
         if trait == 'IntoIterator' and method == 'into_iter':
             from .models import SeqIter
             a0 = args[0]
